@@ -80,6 +80,11 @@ Fixpoint congruence_from (prev : option row) (l : list row) : list bool :=
 Definition congruence (rows : list row) : list bool := congruence_from None rows.
 Definition is_congruent (rows : list row) : bool := forallb (fun b => b) (congruence rows).
 
+(** remove_discrepancies(): if some marker is flagged, keep the markers flagged congruent (select(mask)), then re-sort and
+    re-group; the interpolation spline is *not* rebuilt (as coded) *)
+Definition rd_rows (rows : list row) : list row :=
+  if is_congruent rows then rows else sort_rows (map fst (filter snd (combine rows (congruence rows)))).
+
 (** * splines (build_spline): per chromosome the (physical, genetic) knots selected by the mask chrgrp == grp, in array
       order; interp1d(assume_sorted = False) then sorts them by x with a stable sort (argsort, kind = "mergesort") *)
 Definition knots (rows : list row) (c : Z) : list (Z * Q) :=
